@@ -41,12 +41,12 @@ class C10(Cfg):
     ]
 
     def streams(self, tier, seed, work, dv):
-        n = 160 if tier == "quick" else 2500
+        n = 120 if tier == "quick" else 2500
         path = os.path.join(work, "histories.ops")
         cmd = [dv, "gen", "--prop", "C10", "--seed", str(seed), "--n", str(n), "--out", path]
         lib.sh(cmd, check=True)
         res = [("histories seed=%d n=%d" % (seed, n), path, False)]
-        n2 = 40 if tier == "quick" else 800
+        n2 = 30 if tier == "quick" else 800
         path2 = os.path.join(work, "long.ops")
         lib.sh([dv, "gen", "--prop", "C10", "--seed", str(seed + 1000003), "--n", str(n2), "--out", path2, "--long"], check=True)
         res.append(("long histories seed=%d n=%d" % (seed + 1000003, n2), path2, False))
